@@ -20,12 +20,15 @@ import (
 	"strings"
 )
 
+const loopFuel = 4
+
 type tctx struct {
 	p        *pkg
 	name     string
 	results  []string          // kinds of the results
 	kinds    map[string]string // variable -> kind: int, bytes, bool, err
-	mutated  []string          // slice parameters written to
+	mutated  []string          // slice parameters written to and package variables updated: returned as extra results
+	pre      []string          // bindings hoisted out of the expression being translated (atomic updates of package variables)
 	inLoop   bool
 	loopVars []string
 	recv     string
@@ -214,6 +217,16 @@ func (c *tctx) expr(e ast.Expr, want string) (string, []string, string) {
 		case "binary.BigEndian.Uint16":
 			b, g, _ := c.expr(e.Args[0], "bytes")
 			return "(go_be16 " + b + ")", append(g, "(2 <=? go_len "+b+")"), "int"
+		case "atomic.AddUint64":
+			// the new value of the package variable (a uint64: the addition wraps at 2^64); the update itself is hoisted
+			// in front of the statement
+			if ue, ok := e.Args[0].(*ast.UnaryExpr); ok && ue.Op == token.AND {
+				if id, ok := ue.X.(*ast.Ident); ok && c.kinds[id.Name] == "int" {
+					k, g, _ := c.expr(e.Args[1], "int")
+					c.pre = append(c.pre, fmt.Sprintf("let %s := ((%s + %s) mod 18446744073709551616) in ", id.Name, id.Name, k))
+					return id.Name, g, "int"
+				}
+			}
 		}
 	case *ast.BinaryExpr:
 		switch e.Op {
@@ -285,6 +298,16 @@ func (c *tctx) exprAny(e ast.Expr) (string, []string, string) {
 	return c.expr(e, "")
 }
 
+// withPre puts the hoisted bindings of the expressions just translated in front of the term that uses them
+func (c *tctx) withPre(term string) string {
+	if len(c.pre) == 0 {
+		return term
+	}
+	t := "(" + strings.Join(c.pre, "") + term + ")"
+	c.pre = nil
+	return t
+}
+
 func (c *tctx) tuple(xs []string) string {
 	if len(xs) == 0 {
 		return "tt"
@@ -348,6 +371,14 @@ func assigned(list []ast.Stmt, declared map[string]bool, out map[string]bool) {
 				if id, ok := st.X.(*ast.Ident); ok && !local[id.Name] {
 					out[id.Name] = true
 				}
+			case *ast.CallExpr:
+				if src(st.Fun) == "atomic.AddUint64" {
+					if ue, ok := st.Args[0].(*ast.UnaryExpr); ok {
+						if id, ok := ue.X.(*ast.Ident); ok && !local[id.Name] {
+							out[id.Name] = true
+						}
+					}
+				}
 			}
 			return true
 		})
@@ -369,7 +400,7 @@ func (c *tctx) stmts(list []ast.Stmt, k func() string) string {
 			t, g, _ := c.expr(r, c.results[i])
 			vals, gs = append(vals, t), append(gs, g...)
 		}
-		return guarded(gs, c.ret(vals))
+		return c.withPre(guarded(gs, c.ret(vals)))
 	case *ast.BranchStmt:
 		if s.Tok == token.CONTINUE && c.inLoop && s.Label == nil {
 			return c.fallOff()
@@ -452,10 +483,13 @@ func (c *tctx) stmts(list []ast.Stmt, k func() string) string {
 			c.kinds[id.Name] = k
 			names, vals, gs = append(names, id.Name), append(vals, t), append(gs, g...)
 		}
+		pre := c.pre
+		c.pre = nil
+		wrap := func(t string) string { c.pre = pre; return c.withPre(t) }
 		if len(names) == 0 {
-			return guarded(gs, rest())
+			return wrap(guarded(gs, rest()))
 		}
-		return guarded(gs, fmt.Sprintf("(let %s := %s in %s)", c.pattern(names), c.tuple(vals), rest()))
+		return wrap(guarded(gs, fmt.Sprintf("(let %s := %s in %s)", c.pattern(names), c.tuple(vals), rest())))
 	case *ast.ExprStmt:
 		if call, ok := s.X.(*ast.CallExpr); ok {
 			switch src(call.Fun) {
@@ -491,6 +525,8 @@ func (c *tctx) stmts(list []ast.Stmt, k func() string) string {
 		}
 		return c.stmts(pre, func() string {
 			cond, g, _ := c.expr(s.Cond, "bool")
+			pre := c.pre
+			c.pre = nil
 			saved := c.saveKinds()
 			a := c.stmts(s.Body.List, rest)
 			c.kinds = saved
@@ -504,7 +540,8 @@ func (c *tctx) stmts(list []ast.Stmt, k func() string) string {
 				b = c.stmts([]ast.Stmt{el}, rest)
 			}
 			c.kinds = saved
-			return guarded(g, fmt.Sprintf("(if %s then %s else %s)", cond, a, b))
+			c.pre = pre
+			return c.withPre(guarded(g, fmt.Sprintf("(if %s then %s else %s)", cond, a, b)))
 		})
 	case *ast.SwitchStmt:
 		pre := []ast.Stmt{}
@@ -561,6 +598,27 @@ func (c *tctx) stmts(list []ast.Stmt, k func() string) string {
 			}
 			return guarded(g, term)
 		})
+	case *ast.ForStmt:
+		// for { body }: the body runs until it returns; the translation gives it loopFuel rounds (the lemma about the
+		// translated function shows they suffice)
+		if c.inLoop || s.Init != nil || s.Cond != nil || s.Post != nil {
+			c.bad(s, "for loop")
+		}
+		set := map[string]bool{}
+		assigned(s.Body.List, map[string]bool{}, set)
+		var vars []string
+		for v := range set {
+			if _, ok := c.kinds[v]; ok {
+				vars = append(vars, v)
+			}
+		}
+		sort.Strings(vars)
+		saved := c.saveKinds()
+		c.inLoop, c.loopVars = true, vars
+		body := c.stmts(s.Body.List, c.fallOff)
+		c.inLoop, c.loopVars = false, nil
+		c.kinds = saved
+		return fmt.Sprintf("(match go_loop %d (fun %s => %s) %s with Some (inr _r) => Some _r | _ => None end)", loopFuel, c.pattern(vars), body, c.tuple(vars))
 	case *ast.RangeStmt:
 		if c.inLoop || s.Tok != token.DEFINE {
 			c.bad(s, "range loop")
@@ -695,6 +753,21 @@ func translate(w *strings.Builder, p *pkg, file, recv, name string) {
 			c.results = append(c.results, k)
 		}
 	}
+	// package variables of integer kind the body updates atomically: a parameter (the value before the call) and an extra
+	// result (the value after it)
+	ast.Inspect(fd.Body, func(n ast.Node) bool {
+		if ce, ok := n.(*ast.CallExpr); ok && src(ce.Fun) == "atomic.AddUint64" {
+			if ue, ok := ce.Args[0].(*ast.UnaryExpr); ok {
+				if id, ok := ue.X.(*ast.Ident); ok {
+					if _, known := c.kinds[id.Name]; !known {
+						addParam(id.Name, "int")
+						c.mutated = append(c.mutated, id.Name)
+					}
+				}
+			}
+		}
+		return true
+	})
 	// slice parameters written to
 	written := map[string]bool{}
 	ast.Inspect(fd.Body, func(n ast.Node) bool {
@@ -732,8 +805,8 @@ func translate(w *strings.Builder, p *pkg, file, recv, name string) {
 	for _, k := range c.results {
 		rts = append(rts, coqType(k))
 	}
-	for range c.mutated {
-		rts = append(rts, "list Z")
+	for _, m := range c.mutated {
+		rts = append(rts, coqType(c.kinds[m]))
 	}
 	rt := "unit"
 	if len(rts) > 0 {
@@ -760,6 +833,7 @@ func emitTranslated(path string, msg, topics, sess, svc *pkg) bool {
 	translate(&w, msg, "message.go", "", "writeLPBytes")
 	translate(&w, msg, "header.go", "header", "msglen")
 	translate(&w, msg, "message.go", "Type", "DefaultFlags")
+	translate(&w, msg, "header.go", "", "nextPacketID")
 	translate(&w, sess, "ackqueue.go", "Ackqueue", "index")
 	translate(&w, sess, "ackqueue.go", "Ackqueue", "full")
 	translate(&w, sess, "ackqueue.go", "Ackqueue", "empty")
